@@ -155,6 +155,21 @@ def world(ctx, rng_seed, m, ps, origin, kshape, shared=None):
         # ... and from the point that is the absolute coordinate (0.0, 0.0) in the first of the two worlds (a centre the caller gives
         # explicitly; in the translated world it is the point d)
         c0 = o - np.asarray(shared["first_origin"], dtype=float)
+        # the number of projected points is int(longest distance to the extent edge / pixel scale) + 1: a distance that is a whole
+        # number of pixels (first world at the origin (0, 0), even frame) is a floating point tie - the count may differ by one
+        # between the worlds - and so is a tie between the longest y and x distances (it selects the pixel scale): don't-care
+        hy, hx = 0.5 * H * ps[0], 0.5 * W * ps[1]
+        cy, cx = float(c0[0] - o[0]), float(c0[1] - o[1])      # centre relative to the frame centre
+        dist = sorted([(hx - cx, 1), (hy - cy, 0), (hx + cx, 1), (hy + cy, 0)])
+        longest = dist[-1][0]
+        near = [a for a in dist if abs(a[0] - longest) <= 1e-9 * max(1.0, abs(longest))]
+        tie = len({a[1] for a in near}) > 1 and ps[0] != ps[1]
+        for a in near:
+            q = a[0] / ps[a[1]]
+            tie = tie or abs(q - round(q)) < 1e-6
+        if tie:
+            ob.ties.add("radial_projected.centre_at_absolute_zero_in_first_world")
+            ob.ties.add("radial_projected_shape_slim.centre_at_absolute_zero_in_first_world")
         def radial_from_absolute_zero():
             g_ = aa.Grid2D.from_mask(mask=mask)
             ob.coord("Grid2D.grid_2d_radial_projected_from", "radial_projected.centre_at_absolute_zero_in_first_world",
@@ -411,8 +426,8 @@ def compare(ctx, a, b, d, scale, W):
         entry, kind, va = a.items[name]
         vb = b.items[name][2]
         mon = "covariance:" + entry
-        if entry in a.ties or entry in b.ties:
-            ctx.skipped["tie(dont_care):" + entry] += 1
+        if entry in a.ties or entry in b.ties or name in a.ties or name in b.ties:
+            ctx.skipped["tie(dont_care):" + (entry if entry in a.ties or entry in b.ties else name)] += 1
             continue
         if kind == "rows":
             ok = va == vb
